@@ -671,3 +671,19 @@ package runtime
 //@ props C06
 //@ ensures C06 len: h == nil ? result == 0 : result == h.count
 //@ modifies nothing
+
+// ---- C05: []rune -> string. Decided: every index is in range (in particular
+// the buffer handed to encoderune always has room for the rune's encoding), the
+// loop terminates, the result's length lies between len(rs) and 4*len(rs) and
+// only fresh memory is written. The byte-exact contents are carried by
+// encoderune's contract per rune (the concatenation over all runes is not stated).
+
+//@ func StringFromRunes
+//@ props C05
+//@ requires sane: len(rs) >= 0 && len(rs) <= 1<<40 && cap(rs) >= len(rs) && (len(rs) > 0 ==> valid(rs.data, len(rs)*4))
+//@ loop 1 invariant progress: -1 <= rangeindex && rangeindex < len(rs) && rangeindex + 1 <= index && index <= 4*(rangeindex+1)
+//@ loop 1 invariant buffer: len(data) == 4*len(rs) && cap(data) == 4*len(rs) && mine(data.data, 4*len(rs))
+//@ loop 1 decreases len(rs) - rangeindex
+//@ ensures C05 empty: len(rs) == 0 ==> result.len == 0 && result.data == nil
+//@ ensures C05 length-bounds: len(rs) > 0 ==> len(rs) <= result.len && result.len <= 4*len(rs)
+//@ modifies nothing
